@@ -80,6 +80,7 @@ async def run_impl(fx, seqs, expected):
     results = [None] * len(seqs)
     async with fe.Server() as srv:
         sem = asyncio.Semaphore(48)
+        bad = [0]
 
         async def one(i, gated=False):
             async with sem:
@@ -90,9 +91,15 @@ async def run_impl(fx, seqs, expected):
                 obs = []
                 try:
                     for ev, exp in zip(seqs[i] + PROBE, expected[i]):
+                        if bad[0] >= 40:                       # enough disagreements to report: do not wait out the rest
+                            obs.append(["skipped"]); continue
                         got = await sess.event(ev, exp)
                         obs.append(srvproto.canon(got))
-                    extra = await sess.drain()
+                        if obs[-1] != list(exp):
+                            bad[0] += 1
+                            if "timeout" in got:
+                                break                            # the rest of this sequence would only time out again
+                    extra = await sess.drain() if bad[0] < 40 else []
                     if extra:
                         obs[-1] = obs[-1] + ["EXTRA:" + ",".join(extra)]
                 finally:
